@@ -83,3 +83,7 @@ mod test {
         assert!(mode.is_err())
     }
 }
+
+// verification hook: harness text lives outside the repository (see MANIFEST.hooks)
+#[cfg(any(kani, sudachi_verif))]
+include!(concat!(env!("SUDACHI_VERIF_DIR"), "/util__user_pos.rs"));
